@@ -16,7 +16,13 @@ func VerifC09Intensity() {
 	intensity := lib.VerifInt("intensity")
 	period := lib.VerifInt("period")
 	lib.VerifAssume(intensity >= 1 && intensity <= lib.VerifParam("maxintensity", 3))
-	lib.VerifAssume(period >= 1 && period <= 3)
+	// band 0: periods 1..3 s, so that the clock steps below reach both sides of the window;
+	// band 1: any other period of the uint16 range (every failure then lies inside the window)
+	if lib.VerifPick("band", 2) == 0 {
+		lib.VerifAssume(period >= 1 && period <= 3)
+	} else {
+		lib.VerifAssume(period >= 4 && period <= 65535)
+	}
 	var restarts []int64
 	var times []int64
 	t := int64(0)
